@@ -133,6 +133,9 @@ def rule_count_once(check):
         un = us[0][1]["node"]
         arg = hir.peel(hir.call_args(un)[1])
         fed = False
+        if arg.get("k") == "MethodCall" and arg["method"] == "status" and "TransformResult" in (hir.peel(arg["recv"]).get("ty") or "") and prog.resolve_local(arg) is not None:
+            # the accessor form `result.status()` (MODIFIED-HOOK/invariant checks what it means)
+            arg = {"k": "Field", "field": "status", "x": arg["recv"]}
         if arg.get("k") == "Field" and arg["field"] == "status":
             l = hir.local_of(arg["x"])
             hf = prog.by_def.get(us[0][1].get("in_fn")) or f
